@@ -15,8 +15,8 @@
 //! * `BE,<hdr>,<rest>,<e>` / `BS,<hdr>,<rest>,<e>` a block whose first statement is the
 //!   expression `e` without / with a semicolon, `BO,<hdr>,<stmts>` any other block; `<hdr>` is
 //!   `<unsafe 0|1>:<length of the label's name | ->:<contains_comment 0|1>:<outer
-//!   attributes>:<inner attributes>`; statements are letters `l` let, `i` item, `m` macro, `0` empty, `o` an
-//!   expression behind the first statement (`-` for none).
+//!   attributes>:<inner attributes>`; statements are letters `l` let, `i` item, `m` macro,
+//!   `0` empty, `o` an expression behind the first statement (`-` for none).
 
 use rustc_ast::ast;
 use rustc_ast::visit::{self, Visitor};
